@@ -22,7 +22,7 @@ def quiet():
 class C01(core.Prop):
     pid = 'C01'
     lean_modules = ['TddaVerif.Props.C01']
-    theorems = []
+    theorems = ['TddaVerif.Props.C01.closure', 'TddaVerif.Props.C01.discover_total', 'TddaVerif.Props.C01.closure_frame']
     quick_n = 250
     thorough_n = 12000
     rule = ('cases: frames of 1..3 columns x 0..26 rows over every recognised family (signed/unsigned/nullable ints, '
